@@ -27,7 +27,7 @@ open KrroodVerif.Pred
 /-- The quirk setting of the code as it is at this commit of /verif (`model=`). When a finding is recorded as
 `fixed:` switch its flag off here in the same commit: `model=` then is the repaired model and the finding's id is
 no longer offered as an excuse in `trig=`. -/
-def codeQuirks : Quirks := { symFnIgnoresFirst := false, childVarsIndependent := true, acceptsRejected := true }
+def codeQuirks : Quirks := { symFnIgnoresFirst := false, childVarsIndependent := true, acceptsRejected := false }
 
 def parseArg : Sexp → Option Arg
   | .list [.atom "l", v] => v.asNat?.map Arg.lit
